@@ -187,6 +187,53 @@ def acts_of(calls, idmap):
     return acts, drain_at
 
 
+def run_impl_robust(ctx, binpath, dcs):
+    """ctx.run_impl with re-runs: a driver shard that was killed from outside (out-of-memory killer, timeout) is re-run
+    completely; when the driver itself crashed (abort, segfault) only the first unanswered case of the shard is the
+    culprit (reported as behaviour), the cases after it are re-run"""
+    KILL = (-9, 137, -15, 143, 124)
+    res = ctx.run_impl(binpath, dcs)
+    confirmed = set()
+    for _ in range(4):
+        died = [i for i, r in enumerate(res) if isinstance(r, dict) and r.get("driver_died") and i not in confirmed]
+        if not died:
+            break
+        rerun = []
+        for i in died:
+            first_of_group = (i - 1) not in died
+            if first_of_group and res[i].get("rc") not in KILL:
+                confirmed.add(i)
+            else:
+                rerun.append(i)
+        if not rerun:
+            break
+        again = ctx.run_impl(binpath, [dcs[i] for i in rerun])
+        for i, r in zip(rerun, again):
+            res[i] = r
+    if any(isinstance(r, dict) and r.get("driver_died") and r.get("rc") in KILL for r in res):
+        infra("the driver process was killed from outside or timed out repeatedly (machine overloaded?)")
+    return res
+
+
+def run_model_robust(ctx, sub, reqs, exprs):
+    """ctx.run_model, re-running (twice at most) the expressions whose coqc shard was killed (out-of-memory killer on a
+    loaded machine) or timed out; if that keeps happening it is an infrastructure error, never a verdict"""
+    def killed(r):
+        return (isinstance(r, tuple) and len(r) == 2 and r[0] == "ERROR" and
+                any(k in str(r[1]) for k in ("rc=-9", "rc=137", "rc=-15", "rc=143", "rc=124", "[timeout", "Killed", "Out of memory")))
+    res = ctx.run_model(sub, reqs, exprs, preamble="Open Scope N_scope.")
+    for _ in range(2):
+        bad = [i for i, r in enumerate(res) if killed(r)]
+        if not bad:
+            break
+        again = ctx.run_model(sub, reqs, [exprs[i] for i in bad], preamble="Open Scope N_scope.")
+        for i, r in zip(bad, again):
+            res[i] = r
+    if any(killed(r) for r in res):
+        infra("the coqc process evaluating the model was killed or timed out repeatedly (machine overloaded?)")
+    return res
+
+
 def evaluate(ctx, binpath, cases, stream, nseeds, witness_ids=()):
     cases = [_cn(c) for c in cases]
     dcs, idmaps = [], []
@@ -195,7 +242,7 @@ def evaluate(ctx, binpath, cases, stream, nseeds, witness_ids=()):
         dc, idmap = driver_case(c, seeds)
         dcs.append(dc)
         idmaps.append(idmap)
-    impl = ctx.run_impl(binpath, dcs)
+    impl = run_impl_robust(ctx, binpath, dcs)
     exprs, meta = [], []
     for c, im, idmap in zip(cases, impl, idmaps):
         if not im or "calls" not in im:
@@ -228,7 +275,7 @@ def evaluate(ctx, binpath, cases, stream, nseeds, witness_ids=()):
             e_lock = "model_mt %s []" % cfg
         meta.append((len(exprs), drain_at, mt_rows))
         exprs.append("(%s, %s, %s)" % (e_st, e_mt, e_lock))
-    model = ctx.run_model("Rsp11", ["KV.Rsp11.Model", "KV.Rsp11.Spec", "KV.Rsp11.Run"], exprs, preamble="Open Scope N_scope.")
+    model = run_model_robust(ctx, "Rsp11", ["KV.Rsp11.Model", "KV.Rsp11.Spec", "KV.Rsp11.Run"], exprs)
     st = {"cases": len(cases), "st_solutions": 0, "st_emitting_calls": 0, "known_class_st": 0, "known_class_mt_runs": 0, "mt_runs": 0,
           "mt_solutions": 0, "lockstep_runs": 0, "impl_model_mismatches": 0, "spec_violations": 0, "leaking_solutions_in_known_class": 0}
     witness_reproduced = {}
